@@ -172,6 +172,8 @@ def run(m: Model, r: Report, tier: str) -> None:
                   "encodings fall back to RawRequest, which keeps the bytes)", floor=2)
     from sa.uds_rules import request_roundtrip_guard
     request_roundtrip_guard(m, r, "R11")
+    from sa.uds_rules import iso_tables
+    iso_tables(m, r, "R8", "UDSIsoServices")
 
     # routing by sub-function must not depend on the suppress bit: every quantity the registry lookup compares is the same for
     # byte 1 = b and b | 0x80 (exhaustive over b)
